@@ -1,28 +1,109 @@
 package rules
 
-func init() {
-	register(&Property{
-		ID: "C03",
-		Explanation: "Static part of laziness. Decided for every input and history: (W-reach) in the sound CHA call graph of the whole program, no exported function or method of dig other than Invoke can reach a user-code sink (call through an invokerFn, call of a Callback, reflect.Value.Call) - so Provide, Decorate, Scope, Visualize, String, New, the option constructors, RootCause, IsCycleDetected, CanVisualizeError never execute user functions; (sealed options) option interfaces cannot be implemented outside dig. Not decided: that every not-yet-built constructor of the closure has run when Invoke succeeds (liveness), fmt calling String()/Error() of user values.",
-		Rules: []RuleFn{ruleWReach("W-reach", "CHA"), ruleSealedOptions("X-sealed")},
-	})
-	register(&Property{
-		ID: "C17",
-		Explanation: "Static part of DryRun. Decided: (W-sink) the only reflective call of user code is dig.defaultInvoker; defaultInvoker/dryInvoker are referenced only by newScope and the DryRun option; all executors call through an invokerFn read from the scope; Scope.invokerFn has three writers (newScope, Scope.Scope copying the parent's, DryRun option) and is otherwise only read to be called - there is no mode branch, so validation code is shared by construction. Not decided: equality of verdicts as a relation between two runs.",
-		Rules: []RuleFn{ruleWSink("W-sink")},
-	})
-}
+// Per-property rule bundles. Every claim is at level "other": the rules are
+// structural necessary conditions of the behavioural property, decided for all
+// inputs, histories and fault sequences at once. The explanation says which
+// part is decided and which is not.
 
 func init() {
-	register(&Property{ID: "DEV", Explanation: "development run of all rules", Rules: []RuleFn{
-		ruleMArgs("M-args"), ruleMOnce("M-once"), ruleMShallow("M-shallow"), ruleRootCause("T-rootcause"),
-		ruleTypestate("E-TS"), ruleOnStack("G-onstack"), ruleCallback("M-cb"), ruleRecover("G-recover"),
-		ruleUserErr("T-usererr"), ruleHomeView("HOME-VIEW"),
-		ruleStaging("E-stage"), ruleDecFirst("M-dec-first"), ruleSoft("G-soft"), ruleOptZero("G-optzero"), ruleProvenance("T-provenance"), ruleSameInstance("T-same-instance"), ruleNoEarlyExit("L-no-early-exit"), ruleMissingPredicate("G-missing"),
-		ruleAcyclicView("M-acyclic-view"), ruleFlagSound("G-flag"), ruleAcyclicProvide("M-acyclic-provide"), ruleCycleErr("W-cycleerr"), ruleOrders("X-orders"), ruleDFS("G-dfs"),
-		ruleK1("K1"), ruleK2("K2"), ruleK3("K3"), ruleDupKey("G-dupkey"), ruleVisitExtract("X-visit-extract"),
-		ruleUnwrap("X-unwrap"), ruleForeignCause("T-foreign-cause"),
-		ruleP1("P1"), ruleRefl("E-REFL"),
-		ruleSwitch("X-switch"), ruleEncodings("X-encodings"), ruleInfo("X-info"), ruleViz("X-viz"), ruleScopes("W-scopes"), ruleInherit("X-inherit"), ruleOrderFree("W-orderfree"), ruleAtomProvide("E-ATOM"), ruleAtomDecorate("E-ATOM"), ruleWOwners("W-owners"),
-	}})
+	register(&Property{
+		ID:          "C01",
+		Explanation: "Decided (necessary conditions, all inputs/histories): key agreement along the whole value path (K1 literal shapes, K2 accessor-argument table over every containerStore/containerWriter call site, X-visit-extract: keys registered by Provide = keys written by Extract); each executor calls the node's own function, not in a loop, with result #0 of BuildList on its own parameter list in its own view and only after BuildList succeeded (M-args); Invoke returns nil only after having called the function (M-once); zero values only for optional parameters with no provider / missing dependencies (G-optzero); staged results committed to the home scope, providers called with their own OrigScope (HOME-VIEW); provider/decorator executions are triggered only by lookups under the parameter's own key (T-provenance); every delivered value is read from a scope store (T-same-instance). NOT decided: that the values are right for every history (cache staleness, which decorator is nearest at run time).",
+		Rules:       []RuleFn{ruleK1("K1"), ruleK2("K2"), ruleVisitExtract("X-visit-extract"), ruleMArgs("M-args"), ruleMOnce("M-once"), ruleOptZero("G-optzero"), ruleHomeView("HOME-VIEW"), ruleProvenance("T-provenance"), ruleSameInstance("T-same-instance")},
+	})
+	register(&Property{
+		ID:          "C02",
+		Explanation: "Decided: typestate of the done-flags constructorNode.called and decoratorNode.state (E-TS: user function dominated by the not-done edge; every re-entrant call site between test and execution is followed by a re-test or protected by the in-progress marker; done value stored only after ExtractList succeeded and nothing can fail afterwards; single writer); every decorator.Call site guarded path-sensitively by State() != decoratorOnStack on the same decorator (G-onstack); all consumers read the committed instance from a scope store, never fresh results (T-same-instance). NOT decided: pointer identity as observed by arbitrary consumers.",
+		Rules:       []RuleFn{ruleTypestate("E-TS"), ruleOnStack("G-onstack"), ruleSameInstance("T-same-instance")},
+	})
+	register(&Property{
+		ID:          "C03",
+		Explanation: "Decided completely (modulo the trusted base): in the sound CHA call graph of the whole program, refined only by dropping signature-matched edges to closures whose value never escapes, no exported function or method of dig other than Invoke can reach a user-code sink (call through an invokerFn, call of a Callback, reflect.Value.Call) - Provide, Decorate, Scope, Visualize, String, New, option constructors, RootCause, IsCycleDetected, CanVisualizeError never execute user functions; option interfaces are sealed. Also decided: executions are triggered only by lookups under the parameter's own key (T-provenance), soft groups call no provider (G-soft), the consumer runs only after BuildList succeeded (M-args). NOT decided: that every not-yet-built constructor in the closure has run when Invoke succeeds (liveness); fmt calling String()/Error() of user values is not 'executing user-supplied functions' in the property's sense.",
+		Rules:       []RuleFn{ruleWReach("W-reach", "CHA"), ruleSealedOptions("X-sealed"), ruleProvenance("T-provenance"), ruleSoft("G-soft"), ruleMArgs("M-args")},
+	})
+	register(&Property{
+		ID:          "C04",
+		Explanation: "Decided: no user function runs with unbuilt arguments (M-args, all three executors); a constructor is entered only after shallowCheckDependencies on its own list and view succeeded, and errMissingDependencies is constructed only from that verdict (M-shallow); a failing constructor is always reported as errConstructorFailed carrying its own error (T-rootcause), so the optional rule cannot confuse it with missing dependencies; zero values only under Optional and (no provider in any enclosing scope | errors.As(err, *errMissingDependencies)) (G-optzero); the missing-predicate reads exactly 'no provider in any enclosing scope and no decorated value and not optional' and recurses into parameter objects (G-missing). NOT decided: the verdict as a function of depth and of optional edges above the gap; the direction 'everything available => Invoke succeeds'. Assumption: user constructors do not return dig's unexported error types.",
+		Rules:       []RuleFn{ruleMArgs("M-args"), ruleMShallow("M-shallow"), ruleRootCause("T-rootcause"), ruleOptZero("G-optzero"), ruleMissingPredicate("G-missing")},
+	})
+	register(&Property{
+		ID:          "C05",
+		Explanation: "Decided: arguments are built only in a view whose graph was verified acyclic (M-acyclic-view, typestate over isVerifiedAcyclic / IsAcyclic / nil-means-verified summaries); the verified flag is sound (true only after IsAcyclic on the same scope; every scope of the affected subtree reset after providers change; G-flag); without deferral every scope of the subtree is checked and every IsAcyclic failure becomes an error wrapping cycleDetectedError(cycle) (M-acyclic-provide); errCycleDetected is constructed only for such failures and IsCycleDetected is exactly errors.As on it (W-cycleerr); the orders invariant holds for every node type flowing into graphNode.Wrapped at every place a scope acquires a node (X-orders); graph edges and run-time resolution dispatch over the same parameter kinds with all-ancestors accessors (X-switch, K2); the DFS marks before exploring and recurses only into unvisited nodes (G-dfs); decorator re-entry is guarded (G-onstack). NOT decided: correctness of the reported path, exhaustiveness over digraphs (an enumeration - different technique), stack depth bounds.",
+		Rules:       []RuleFn{ruleAcyclicView("M-acyclic-view"), ruleFlagSound("G-flag"), ruleAcyclicProvide("M-acyclic-provide"), ruleCycleErr("W-cycleerr"), ruleOrders("X-orders"), ruleDFS("G-dfs"), ruleSwitch("X-switch"), ruleK2("K2"), ruleOnStack("G-onstack")},
+	})
+	register(&Property{
+		ID:          "C06",
+		Explanation: "Decided for every rejection cause at once (all error exits of the call trees of Provide and Decorate, including those no test provokes): every persistent write that can be followed by an error return is compensated on the same object (graph nodes by snapshot/rollback over the home scope's subtree, providers by a restoring loop over the saved entries on the same scope) or does not exist (E-ATOM); the registration fields have no writer outside their transactions (W-owners); duplicate decorators are rejected before anything is registered (G-decorate-dup); registration never executes user code (W-reach). NOT decided: equality of all later behaviour with the history without the call (a relation between runs); the check shows that no persistent location differs.",
+		Rules:       []RuleFn{ruleAtomProvide("E-ATOM"), ruleAtomDecorate("E-ATOM"), ruleWOwners("W-owners"), ruleDecorateDup("G-decorate-dup"), ruleWReach("W-reach", "CHA")},
+	})
+	register(&Property{
+		ID:          "C07",
+		Explanation: "Decided: results of an execution reach a scope only through a commit no error exit can follow - constructors write into a fresh staging writer committed after ExtractList's nil edge (HOME-VIEW), and any ExtractList that writes straight into a scope cannot fail after having written (E-stage); done-flags advance only on the success edge and nothing can fail afterwards (E-TS c); the decorator's in-progress marker is reset by a defer registered before anything can fail, so error returns and panics leave it runnable (E-stage); the error reported for a failed function is its own error value (T-rootcause); recover() only under RecoverFromPanics (G-recover). NOT decided: that the retry happens in every continuation (follows from the flag not advancing plus resolution reaching it again, which is run-time).",
+		Rules:       []RuleFn{ruleStaging("E-stage"), ruleTypestate("E-TS"), ruleRootCause("T-rootcause"), ruleHomeView("HOME-VIEW"), ruleRecover("G-recover")},
+	})
+	register(&Property{
+		ID:          "C08",
+		Explanation: "Decided: no function reachable from resolution reads Scope.childScopes - navigation is only up through parentScope, nearest first (W-scopes); Export re-targets the home scope to the root exactly under opts.Exported while the original scope stays the receiver and is what providers are called with (W-scopes, HOME-VIEW); propagation reaches the whole subtree (appendSubscopes/newGraphNode recursion) and child scopes created later copy all nodes with their orders (X-orders); option-settable configuration is inherited by children (X-inherit). NOT decided: 'nearest wins' as an outcome beyond the first-hit loop structure; value caching across scopes.",
+		Rules:       []RuleFn{ruleScopes("W-scopes"), ruleHomeView("HOME-VIEW"), ruleOrders("X-orders"), ruleInherit("X-inherit"), ruleK2("K2")},
+	})
+	register(&Property{
+		ID:          "C09",
+		Explanation: "Decided: key literals set t and at most one of name/group, accessor kinds and map kinds agree (K1); every accessor call site passes (discriminator, type) of one IR object in the shape its counterpart uses (K2); group names are never empty where they enter the IR, so group and unnamed keys cannot coincide in the shared providers map (K3); every name key, including As keys, passes the duplicate check against the constructor's own keys and the home scope's providers, name and group are mutually exclusive at all three entry points, Provide registers only after validation (G-dupkey); registered keys = written keys (X-visit-extract). NOT decided: the As-replaces-concrete-type convention as an outcome, pointer sharing among As keys.",
+		Rules:       []RuleFn{ruleK1("K1"), ruleK2("K2"), ruleK3("K3"), ruleDupKey("G-dupkey"), ruleVisitExtract("X-visit-extract")},
+	})
+	register(&Property{
+		ID:          "C10",
+		Explanation: "Decided: group accessors agree on (Group, Type.Elem()) / (Group, Type) conventions (K2); callGroupProviders calls every provider of every enclosing scope and the concatenation visits every enclosing scope - no exit other than an error (L-no-early-exit); feeders run at most once and submit through one staged commit (E-TS, E-stage, HOME-VIEW); each value map has one writer, getValueGroup hands out a fresh copy (W-owners, L-no-early-exit); the returned slice is assembled only from getValueGroup(pt.Group, pt.Type.Elem()) (T-same-instance); group providers are found only under the parameter's own key (T-provenance). NOT decided: the multiset itself; that the shuffle is a permutation (trusts rand.Perm).",
+		Rules:       []RuleFn{ruleK2("K2"), ruleNoEarlyExit("L-no-early-exit"), ruleTypestate("E-TS"), ruleStaging("E-stage"), ruleHomeView("HOME-VIEW"), ruleWOwners("W-owners"), ruleSameInstance("T-same-instance"), ruleProvenance("T-provenance")},
+	})
+	register(&Property{
+		ID:          "C11",
+		Explanation: "Decided: in paramGroupedSlice.Build every call that can reach a constructor execution other than through a decorator execution is dominated by !Soft; Soft is set only from parseGroupString's \"soft\" option and is consumed (rejected) on results (G-soft, X-encodings/X-group-parse). NOT decided: the clause 'contains all members of earlier executions and of sibling fields' - it depends on the run-time effect of the field reordering in paramObject.Build; a static recogniser for 'soft fields are built last' would be tied to today's spelling and fire on equivalent rewrites, so none is armed.",
+		Rules:       []RuleFn{ruleSoft("G-soft"), ruleEncodings("X-encodings")},
+	})
+	register(&Property{
+		ID:          "C12",
+		Explanation: "Decided: every path to an undecorated source passes first the decorator attempt and then the decorated-value lookup (M-dec-first); the decorated value is read from the scope whose decorator ran, under the parameter's own key (M-dec-first, K2); at most one decorator per key per scope and nothing registered on rejection (G-decorate-dup, E-ATOM); the decorator builds its arguments in, and writes to, its own scope after marking itself on-stack (M-args, E-TS, G-onstack); it runs at most once and is applied again after a failure (E-TS, E-stage); scopes outside the subtree are unaffected (W-scopes). NOT decided: nearest-decorator selection as an outcome for every history.",
+		Rules:       []RuleFn{ruleDecFirst("M-dec-first"), ruleDecorateDup("G-decorate-dup"), ruleAtomDecorate("E-ATOM"), ruleMArgs("M-args"), ruleTypestate("E-TS"), ruleOnStack("G-onstack"), ruleStaging("E-stage"), ruleK2("K2"), ruleScopes("W-scopes")},
+	})
+	register(&Property{
+		ID:          "C13",
+		Explanation: "Decided: the value Invoke returns after the call is the very error value asserted out of the function's last result, and a non-nil one is never replaced (T-usererr); every dig error type with a wrapped error has Unwrap returning it, RootCause walks with errors.As/Unwrap, no foreign error constructor is used in dig (X-unwrap); no error of a non-dig call becomes a wrapped cause or is returned while non-nil (T-foreign-cause, path-sensitive); a failing constructor's/decorator's own error is what is wrapped (T-rootcause); every recover() sits in an executor's closure deferred under recoverFromPanics before the call and stores PanicError{Panic: recover()} into the named result; PanicError is neither a dig.Error nor a wrapper (G-recover, X-panicshape); IsCycleDetected is exactly errors.As on errCycleDetected, constructed only for IsAcyclic failures (W-cycleerr). NOT decided: chain shapes at depth (follow from X-unwrap by induction).",
+		Rules:       []RuleFn{ruleUserErr("T-usererr"), ruleUnwrap("X-unwrap"), ruleForeignCause("T-foreign-cause"), ruleRootCause("T-rootcause"), ruleRecover("G-recover"), ruleCycleErr("W-cycleerr")},
+	})
+	register(&Property{
+		ID:          "C14",
+		Explanation: "Decided: (P1) in every public entry the user function reaches dig code or reflect.ValueOf only after the untyped-nil and Kind()==Func checks; (E-REFL) each of the ~60 partial reflect operations in non-test code is discharged by a dominating Kind test on the same value (path-sensitive where the test is correlated with a flag), a function contract checked at every call site, a field invariant checked where the IR value is constructed, or the IsIn/IsOut=>struct implication; a handful is listed as assumed with its reason; group names are non-empty (K3, otherwise an invalid reflect.Value reaches Call); the discarded-ok lookups rest on K2 + X-visit-extract; rejected input changes nothing (E-ATOM). NOT decided: panics from indexing, nil maps, reflect.Value.Set assignability, user String() methods; nil option values; String() of option values.",
+		Rules:       []RuleFn{ruleP1("P1"), ruleRefl("E-REFL"), ruleK3("K3"), ruleK2("K2"), ruleVisitExtract("X-visit-extract"), ruleAtomProvide("E-ATOM"), ruleAtomDecorate("E-ATOM")},
+	})
+	register(&Property{
+		ID:          "C15",
+		Explanation: "Decided: both encodings are lowered to one IR and everything downstream is structural recursion over it - the value sets of the param/result interfaces are computed and every dispatcher handles them or has a reasoned exception; dispatchers and Dot*/Build/Extract iterate the same child slices in order (X-switch); the variadic parameter and error results are dropped by exactly the intended conditions, the name/group option and tag reach the same IR fields through the same parser with the same validations (X-encodings). NOT decided: the equivalence itself (a relation between two programs' behaviours).",
+		Rules:       []RuleFn{ruleSwitch("X-switch"), ruleEncodings("X-encodings")},
+	})
+	register(&Property{
+		ID:          "C16",
+		Explanation: "Decided: the orders invariant - the structural reason why the creation time of a child scope cannot matter (X-orders); deferAcyclicVerification is read only to skip the IsAcyclic block of provide and is copied to children; on the Provide path providers are read only for the duplicate check of the constructor's own results and by cycle detection, decorators are never read; on the Decorate path providers are never read (W-orderfree); the verified flag is reset for the whole subtree on every change, deferred or not (G-flag). NOT decided: equality of wiring under permutation (relational).",
+		Rules:       []RuleFn{ruleOrders("X-orders"), ruleOrderFree("W-orderfree"), ruleFlagSound("G-flag")},
+	})
+	register(&Property{
+		ID:          "C17",
+		Explanation: "Decided: the only reflective call of user code is dig.defaultInvoker; defaultInvoker/dryInvoker are referenced only by newScope and the DryRun option; every executor calls through an invokerFn read from the scope; Scope.invokerFn has exactly three writers and no mode-branch reader, so all validation code is shared by construction; dryInvoker reaches no sink (W-sink); children inherit the invoker and the other option-settable fields (X-inherit). NOT decided: 'same verdicts' as a relation between a dry and a normal run (follows from code sharing only up to the zero values the fake results take).",
+		Rules:       []RuleFn{ruleWSink("W-sink"), ruleInherit("X-inherit")},
+	})
+	register(&Property{
+		ID:          "C18",
+		Explanation: "Decided: each Input/Output literal copies every attribute of one list element and is stored at that element's index; the Info slices are sized by and derived from the registered node's own flattened parameter/result lists; Info.ID is the node id, which is the function's code pointer (X-info); Info fields are written after the last error exit of Provide/Decorate (E-ATOM); Dot*/leaves iterate children in order, leaves yield 1 resp. 1+len(As) entries (X-info, X-switch); variadic parameters and error results never enter the IR (X-encodings). NOT decided: uniqueness of code pointers for closures (a Go runtime fact).",
+		Rules:       []RuleFn{ruleInfo("X-info"), ruleAtomProvide("E-ATOM"), ruleAtomDecorate("E-ATOM"), ruleSwitch("X-switch"), ruleEncodings("X-encodings")},
+	})
+	register(&Property{
+		ID:          "C19",
+		Explanation: "Decided: addNodes adds one cluster per element of s.nodes with that constructor's own lists and covers every scope; s.nodes grows only at provide's commit point; every non-constant Fprintf argument of the DOT writers is quoted or structurally safe; every argument of an HTML-like label format is html-escaped; edges are dashed exactly for optional parameters; CanVisualizeError and updateGraph agree on the errVisualizer chain walk and its three implementers (X-viz, E-ATOM, W-owners). NOT decided: failure colouring and pruning (run-time graph algorithm), exact node and edge sets.",
+		Rules:       []RuleFn{ruleViz("X-viz"), ruleAtomProvide("E-ATOM"), ruleWOwners("W-owners")},
+	})
+	register(&Property{
+		ID:          "C20",
+		Explanation: "Decided (per executor with a callback): the callback is invoked only from a closure used by one defer that is dominated by BuildList's success edge, the not-done edge and callback != nil, not in a loop, and every exit after it passes the user-function call; the recover defer is registered after it; the closure calls the node's own callback with Error read from the executor's named result at defer time, Name built from the node's location, Runtime = clock().Since(start) with start taken after BuildList and nothing that can execute other user functions in between; the option plumbing forwards the user's callback to the node (M-cb); registration never calls a callback (W-reach); PanicError is what a recovered panic stores (G-recover); Error's root cause is the function's own error (T-rootcause). NOT decided: the duration value; behaviour for unrecovered panics (the callback then reports a nil error - an observation, outside the statement).",
+		Rules:       []RuleFn{ruleCallback("M-cb"), ruleRecover("G-recover"), ruleRootCause("T-rootcause"), ruleWReach("W-reach", "CHA")},
+	})
 }
